@@ -32,7 +32,7 @@ GOENV = dict(os.environ, GOFLAGS="-mod=mod", GOPROXY="off", GOSUMDB="off",
 # VERIF_COVER=<dir> (used by checks/coverage.py only, never by the registered commands): build the harness and the
 # applications with Go's coverage instrumentation for /repo's packages and collect counters in <dir>
 COVER_DIR = os.environ.get("VERIF_COVER")
-COVFLAGS = ["-cover", "-coverpkg=github.com/goblimey/go-ntrip/...,./..."] if COVER_DIR else []
+COVFLAGS = ["-cover", "-covermode=atomic", "-coverpkg=github.com/goblimey/go-ntrip/...,./..."] if COVER_DIR else []
 if COVER_DIR:
     os.makedirs(COVER_DIR, exist_ok=True)
     GOENV["GOCOVERDIR"] = COVER_DIR
